@@ -27,6 +27,9 @@ type named struct {
 	want  func() []byte
 }
 
+// offsets of fixed-value bytes per layout: a message with another byte there must be rejected
+var fixedOffsets = map[string][]int{"embedded/unexported-type-with-function-code": {8}}
+
 func le32(b []byte, off int, v uint32) {
 	b[off], b[off+1], b[off+2], b[off+3] = byte(v), byte(v>>8), byte(v>>16), byte(v>>24)
 }
@@ -182,7 +185,32 @@ func namedLayouts() []named {
 			return b
 		}}
 	}())
+	// group 6: the function code and a fixed-value byte are declared INSIDE an embedded struct of an unexported type: emitted on
+	// encode and enforced on decode like anywhere else
+	out = append(out, func() named {
+		return named{"embedded/unexported-type-with-function-code", func() (any, any) {
+			return &msgWithCodedHeader{codedHeader: codedHeader{Serial: 405419896}, Card: 8165538}, &msgWithCodedHeader{}
+		}, func() []byte {
+			b := make([]byte, 64)
+			b[0], b[1] = 0x17, 0x96
+			le32(b, 4, 405419896)
+			b[8] = 0x55
+			le32(b, 12, 8165538)
+			return b
+		}}
+	}())
 	return out
+}
+
+type codedHeader struct {
+	MsgType types.MsgType      `uhppote:"value:0x96"`
+	Serial  types.SerialNumber `uhppote:"offset:4"`
+	Magic   uint8              `uhppote:"offset:8, value:0x55"`
+}
+
+type msgWithCodedHeader struct {
+	codedHeader
+	Card uint32 `uhppote:"offset:12"`
 }
 
 type header struct {
@@ -234,13 +262,23 @@ func checkNamed(c namedCase) *rp.Fail {
 		if err := codec.Unmarshal(bad, blank); err == nil {
 			return rp.Failf("codec.Unmarshal/function-code-not-enforced/declared-type", "step %d of %v: declared layout %s accepted function code %02x", step, c.Order, l.Label, bad[1])
 		}
+		for _, off := range fixedOffsets[l.Label] {
+			bad := append([]byte(nil), want...)
+			bad[off] ^= 0xff
+			if err := codec.Unmarshal(bad, blank); err == nil {
+				return rp.Failf("codec.Unmarshal/fixed-value-not-enforced/declared-type", "step %d of %v: declared layout %s accepted %02x at offset %d, where its tag fixes %02x", step, c.Order, l.Label, bad[off], off, want[off])
+			}
+			if as, err := codec.UnmarshalAs(bad, reflect.ValueOf(blank).Elem().Interface()); err == nil {
+				return rp.Failf("codec.UnmarshalAs/fixed-value-not-enforced/declared-type", "step %d of %v: declared layout %s: UnmarshalAs accepted %02x at offset %d (%+v)", step, c.Order, l.Label, bad[off], off, as)
+			}
+		}
 	}
 	ev.Case("named/sequence", true, fmt.Sprint(c.Order))
 	return nil
 }
 
 func genNamed(t *rapid.T) namedCase {
-	return namedCase{Order: rapid.SliceOfN(rapid.IntRange(0, 8), 2, 14).Draw(t, "order")}
+	return namedCase{Order: rapid.SliceOfN(rapid.IntRange(0, 9), 2, 14).Draw(t, "order")}
 }
 
 // concurrent first use of a layout: a freshly built struct type (new to every per-type cache) is encoded and decoded by
